@@ -180,7 +180,7 @@ fn main() {
             let mut keys = Vec::new();
             for i in 0..n {
                 // the hash-ordered families first
-                keys.push(workload::family(&mut r, [0usize, 1, 2, 3, 4, 5][i % 6]));
+                keys.push(workload::family(&mut r, i % workload::N_FAMILIES));
             }
             let fault = keys.len();
             keys.push(workload::fault_keys()[0].clone());
